@@ -685,7 +685,12 @@ func Judge(tr *Trace) []Finding {
 			okIDs[st.ID] = true
 		}
 	}
+	// C15 quantifies over API call SEQUENCES (x faults): the conversation grammar is judged on
+	// traces whose API calls did not overlap; overlapping calls are C13's subject.
 	for i, f := range tr.Frames {
+		if tr.Overlap {
+			break
+		}
 		if closeAt >= 0 {
 			add("C15", "C15/grammar/frame-after-close", fmt.Sprintf("frame %d (%s %s) written after the close frame", i, f.Type, f.ID))
 			break
